@@ -348,6 +348,37 @@ func genC05() []*batch.Case {
 	return out
 }
 
+// genC05Pairs (thorough): two ownership roles one after the other in the same scope, for every ordered
+// pair of roles, every kind and every exit path: the second role runs while the first role's variables
+// are alive, and the exit path has to release both.
+func genC05Pairs() []*batch.Case {
+	var out []*batch.Case
+	n := 0
+	for _, k := range heapKinds() {
+		for _, r1 := range heapRoles() {
+			for _, r2 := range heapRoles() {
+				for _, ph := range heapPaths() {
+					n++
+					p := fmt.Sprintf("hp%d", n)
+					b1, f1 := r1.mk(p+"a", k)
+					b2, f2 := r2.mk(p+"b", k)
+					if b1 == nil || b2 == nil {
+						continue
+					}
+					wrapped, fs := ph.wrap(p, seq(b1, b2), k)
+					structs := k.structs
+					if r1.name == "field" || r2.name == "field" {
+						structs = append(append([]*Type{}, structs...), stQ)
+					}
+					out = append(out, &batch.Case{Key: k.name + ":" + r1.name + "+" + r2.name + ":" + ph.name, Desc: "kind " + k.name + ", roles " + r1.name + " then " + r2.name + ", exit path " + ph.name,
+						Structs: structs, Aliases: k.aliases, Funcs: append(append(f1, f2...), fs...), Body: seq(wrapped, one(prs("ok\n")))})
+				}
+			}
+		}
+	}
+	return out
+}
+
 var ledgerSummary = regexp.MustCompile(`LEDGER-SUMMARY: calls=(\d+) violations=(\d+) leaked_blocks=(\d+) leaked_bytes=(\d+)`)
 
 // memoryVerdict inspects stderr of a program run with the ledger and/or ASan.
@@ -393,6 +424,15 @@ func runC05(tier string) int {
 	cases := genC05()
 	st := batch.Run(c, cases, batch.Opts{Prop: "C05", Family: "own", Levels: levels, BatchSize: 12, Asan: true, Build: ledgerBuild(), Extra: memoryVerdict})
 	c.Set("stats", st)
+	if tier == "thorough" {
+		pairs := genC05Pairs()
+		st2 := batch.Run(c, pairs, batch.Opts{Prop: "C05", Family: "own2", Levels: levels, BatchSize: 12, Asan: true, Build: ledgerBuild(), Extra: memoryVerdict})
+		c.Set("stats_role_pairs", st2)
+		st.Cases += st2.Cases
+		st.Unspecified += st2.Unspecified
+		st.Runs += st2.Runs
+		cases = append(cases, pairs...)
+	}
 	c.Sample(map[string]any{"case": cases[len(cases)/2].Desc})
 	c.Sample(map[string]any{"case": cases[len(cases)/5].Desc})
 	c.Set("evaluations", st.Cases)
@@ -401,7 +441,7 @@ func runC05(tier string) int {
 	c.Set("traces_validated_against_impl", st.Runs)
 	c.Set("distinct_nontrivial", len(cases))
 	c.Set("rule", "state = (value kind, ownership role, exit path); every program runs with the allocator ledger (each ddp_reallocate checked against a pointer→size table, table must be empty at normal exit) on the ASan build of runtime+stdlib; stdout is compared with the cdm prediction")
-	c.Set("bounds", map[string]any{"kinds": len(heapKinds()), "roles": len(heapRoles()), "paths": len(heapPaths()), "opt_levels": levels})
+	c.Set("bounds", map[string]any{"kinds": len(heapKinds()), "roles": len(heapRoles()), "paths": len(heapPaths()), "opt_levels": levels, "role_pairs": tier == "thorough"})
 	c.Assume("blocks obtained with malloc directly (not through ddp_reallocate) are only seen by ASan/LSan", "Laufzeitfehler exits are excluded (exit() path)")
 	return c.Finish()
 }
